@@ -18,7 +18,9 @@ pub struct Case {
     /// bit3 `sub/` with a file, bit4 empty directory named like a key
     pub foreign: u8,
     /// `.kismet_temp` content: bit0 age limit-10s, bit1 limit-1s, bit2 exactly limit,
-    /// bit3 limit+1s, bit4 limit+1h, bit5 old subdirectory, bit6 old hard link to entry k00
+    /// bit3 limit+1s, bit4 limit+1h, bit5 old subdirectory, bit6 old hard link to entry k00,
+    /// bit7 a young (10 min) file that is a second hard link to an application file outside the cache (a value
+    /// being staged by link rather than by copy)
     pub temps: u8,
     pub capacity: usize,
     /// 0 plain set, 1 plain put, 2 sharded put, 3 sharded temp_dir(None), 4 stacked ensure (plain writer)
@@ -40,7 +42,7 @@ impl Case {
     }
 }
 
-const TEMP_NAMES: [&str; 7] = ["t_young10", "t_young1", "t_exact", "t_old1", "t_old3600", "t_olddir", "t_oldlink"];
+const TEMP_NAMES: [&str; 8] = ["t_young10", "t_young1", "t_exact", "t_old1", "t_old3600", "t_olddir", "t_oldlink", "t_younglink"];
 
 fn materialise(dir: &Path, case: &Case, now: i128) {
     let day = 86_400 * SEC;
@@ -94,6 +96,11 @@ fn materialise(dir: &Path, case: &Case, now: i128) {
             world::set_times(&tdir.join(TEMP_NAMES[5]).join("inner"), now - 2 * LIMIT, now - 2 * LIMIT);
             world::set_times(&tdir.join(TEMP_NAMES[5]), now - 2 * LIMIT, now - 2 * LIMIT);
         }
+        if case.temps & 128 != 0 {
+            let blob = dir.parent().unwrap().join(".app_blob");
+            world::plant(&blob, b"application blob", 0o644, now - 600 * SEC - 120 * SEC, now - 600 * SEC);
+            shim::passthrough(|| std::fs::hard_link(&blob, tdir.join(TEMP_NAMES[7])).unwrap());
+        }
         if case.temps & 64 != 0 && !case.keys.is_empty() {
             shim::passthrough(|| {
                 std::fs::hard_link(dir.join("k00"), tdir.join(TEMP_NAMES[6])).unwrap();
@@ -123,7 +130,7 @@ fn judge(case: &Case, before: &Snapshot, after: &Snapshot, pruned: bool, cleaned
         if in_temp && k.matches('/').count() == 1 {
             let idx = TEMP_NAMES.iter().position(|n| *n == base);
             match idx {
-                Some(0) | Some(1) => {
+                Some(0) | Some(1) | Some(7) => {
                     if a.is_none() {
                         bad.push((
                             "young-temp-removed".into(),
@@ -272,7 +279,7 @@ fn record(case: &Case, rep: &mut Report) {
     rep.evaluations += 1;
     rep.states += 1;
     rep.traces += 1;
-    if case.foreign != 0 || (case.temps & 0b1011011) != 0 {
+    if case.foreign != 0 || (case.temps & 0b11011011) != 0 {
         rep.count("nontrivial_count", 1);
     }
     for (sig, msg) in run_case(case, rep) {
@@ -285,7 +292,7 @@ pub fn run(tier: Tier, shard: Shard, rep: &mut Report) {
     rep.rule = format!(
         "directory populations: every sequence of n <= {} key-named files over {{old unread, old read, new unread}} x \
          {} subsets of foreign objects (.app old, .app2 new, .appdir/, sub/, key-like directory) x {} subsets of \
-         .kismet_temp contents (ages limit-10s, limit-1s, exactly limit, limit+1s, limit+1h, old subdirectory, old hard \
+         .kismet_temp contents (ages limit-10s, limit-1s, exactly limit, limit+1s, limit+1h, old subdirectory, young second hard link to an application file, old hard \
          link to a published entry) x capacity 0..=n+1 x maintenance forced through plain set, plain put, sharded put, \
          sharded temp_dir, stacked ensure. Non-trivial = a foreign object or a temp file with a decided fate is present.",
         max_n,
@@ -297,9 +304,9 @@ pub fn run(tier: Tier, shard: Shard, rep: &mut Report) {
         "which and how many key-named entries are evicted is C07's business; here they may only be evicted or re-stamped".into(),
     ];
     let temp_sets: Vec<u8> = if tier == Tier::Quick {
-        vec![0, 127, 1, 2, 4, 8, 16, 32, 64, 0b0011011]
+        vec![0, 127, 1, 2, 4, 8, 16, 32, 64, 0b0011011, 128, 255]
     } else {
-        (0..128).collect()
+        (0..128u8).chain([0u8, 1, 2, 8, 16, 32, 64, 127].iter().map(|x| x | 128)).collect()
     };
     let mut no = 0u64;
     for n in 0..=max_n {
